@@ -145,6 +145,9 @@ fn import_siblings(suite: &str, tier: &str, seed: u64, dir: &str) {
             .unwrap_or_default()
             .lines()
             .filter(|l| matches!(l.split_whitespace().nth(1), Some("mac") | Some("adev") | Some("nbdev")))
+            // C12's overrides to downlink-only data rates are outside the other properties' quantifiers
+            // (C09 judges every transmission against the uplink rates of RP002)
+            .filter(|l| ![" ; dr 8 ;", " ; dr 9 ;", " ; dr 10 ;", " ; dr 11 ;", " ; dr 12 ;", " ; dr 13 ;"].iter().any(|p| l.contains(p)))
             .map(|l| format!("{}{}", suite, &l[sib.len()..]))
             .collect();
         let _ = std::fs::remove_dir_all(&tmp);
